@@ -2,6 +2,7 @@
 optionally steering every draw from a script (spec -> code direction)."""
 import math
 import random as _pyrandom
+import os
 import sys
 import traceback
 from fractions import Fraction
@@ -265,6 +266,9 @@ class Run:
                                    "x": 1 if r else 0, "y": 0, "w": [], "wq": []})
                 e["unchecked"] = False
         rec.wrap(Q.deadlock_detector, "detect_deadlock", post=after_detect)
+        _stderr = sys.stderr
+        if sc.get("pbar"):
+            sys.stderr = open(os.devnull, "w")      # the progress bar draws on stderr; its arithmetic still runs
         try:
             if sc["stop"] == "time":
                 from .scenario import tv
@@ -294,6 +298,9 @@ class Run:
         except Exception as e:  # crash outside an event (loop, wrap-up)
             self.outcome = "crash"
             self.crash = crash_info(e)
+        if sys.stderr is not _stderr:
+            sys.stderr.close()
+            sys.stderr = _stderr
         final = project(R)
         final["steps"] = R.take_steps()
         final["recs"] = new_records(R)
